@@ -78,7 +78,7 @@ def encState (w : World) (s : SState) (o : Out) : String :=
   let listing := match o.listing with
     | none => "n"
     | some l => "s" ++ (let items := sortStrings (l.map encStr); if items.isEmpty then "~" else "|".intercalate items)
-  s!"replies={encNats o.replies} crashed={encBool o.crashed} alive={encBool s.alive} user={encOptNat s.user} logged={encBool s.logged} cwd={encPPath s.cwd} rnfr={rn} rest={s.restartOffset} passive={encBool s.passive} data={encBool s.dataConn} out={encBytes o.data} listing={listing} srvfree={encOptNat w.serverFree} ufree={",".intercalate (w.userFree.map encOptNat)} fs={encFs w.fs}"
+  s!"replies={encNats o.replies} crashed={encBool o.crashed} alive={encBool s.alive} user={encOptNat s.user} logged={encBool s.logged} cwd={encPPath s.cwd} rnfr={rn} rest={s.restartOffset} xfer={s.transferOffset} passive={encBool s.passive} data={encBool s.dataConn} out={encBytes o.data} listing={listing} srvfree={encOptNat w.serverFree} ufree={",".intercalate (w.userFree.map encOptNat)} fs={encFs w.fs}"
 
 def setAt (l : List SState) (i : Nat) (s : SState) : List SState :=
   l.mapIdx (fun j x => if j = i then s else x)
